@@ -32,6 +32,7 @@ type Flow struct {
 	// boolDefs: once-assigned boolean locals standing for a comparison
 	boolDefs map[string]ast.Expr
 	assignCount map[string]int
+	mayReturn   func(*ast.CallExpr) bool
 }
 
 var noReturnCallees = map[string]bool{
@@ -56,7 +57,34 @@ func (pr *Prog) Flow(fn *Func) *Flow {
 		return f
 	}
 	fl := &Flow{P: pr, Pkg: fn.Pkg, Fn: fn, swOf: map[*ast.CaseClause]ast.Stmt{}, unstable: map[string]bool{}, boolDefs: map[string]ast.Expr{}, assignCount: map[string]int{}}
-	fl.G = cfg.New(fn.Body, fn.Pkg.mayReturn)
+	// local closures that never return (die := func(msg string) { typecheck.Panicf(...) })
+	noRet := map[string]bool{}
+	ast.Inspect(fn.Body, func(n ast.Node) bool {
+		a, ok := n.(*ast.AssignStmt)
+		if !ok || len(a.Lhs) != 1 || len(a.Rhs) != 1 || a.Tok != token.DEFINE {
+			return true
+		}
+		lit, ok := a.Rhs[0].(*ast.FuncLit)
+		id, ok2 := a.Lhs[0].(*ast.Ident)
+		if !ok || !ok2 || len(lit.Body.List) == 0 {
+			return true
+		}
+		if es, ok := lit.Body.List[len(lit.Body.List)-1].(*ast.ExprStmt); ok {
+			if call, ok := es.X.(*ast.CallExpr); ok && !fn.Pkg.mayReturn(call) {
+				noRet[id.Name] = true
+			}
+		}
+		return true
+	})
+	fl.mayReturn = func(call *ast.CallExpr) bool {
+		if id, ok := call.Fun.(*ast.Ident); ok && noRet[id.Name] {
+			if _, isVar := fn.Pkg.Info.Uses[id].(*types.Var); isVar {
+				return false
+			}
+		}
+		return fn.Pkg.mayReturn(call)
+	}
+	fl.G = cfg.New(fn.Body, fl.mayReturn)
 	ast.Inspect(fn.Body, func(n ast.Node) bool {
 		switch s := n.(type) {
 		case *ast.SwitchStmt:
@@ -667,7 +695,7 @@ func (fl *Flow) Walk(start Loc, x0 string, f0 Facts, v Visitor) {
 					case *ast.ReturnStmt:
 						ret = last
 					case *ast.ExprStmt:
-						if c, ok := last.X.(*ast.CallExpr); ok && !fl.Pkg.mayReturn(c) {
+						if c, ok := last.X.(*ast.CallExpr); ok && !fl.mayReturn(c) {
 							kind = ExitPanic
 						}
 					}
